@@ -858,15 +858,27 @@ theorem Inv.mono {w : World} {b b' : Nat} (h : Inv w b) (hb : b ≤ b') : Inv w 
 
 theorem connectFailed_inv {w : World} {b : Nat} (h : Inv w b) (k : Nat) : Inv (connectFailed w k) b := by
   unfold connectFailed
-  exact ((h.of_fields (w' := { w with connReady := true }) rfl rfl rfl rfl).kill k).of_fields rfl rfl rfl rfl
+  have h1 := (h.of_fields (w' := { w with connReady := true }) rfl rfl rfl rfl).kill k
+  simp only
+  split
+  · exact h1.of_fields rfl rfl rfl rfl
+  · exact h1.of_fields rfl rfl rfl rfl
 
-theorem connack_tail_inv {w : World} {b : Nat} (h : Inv w b) (c : Prop) [Decidable c] (ph : Phase) :
-    Inv { pushTask (if c then pushTask w .resubscribe else w) .retry with initialized := true, phase := ph } b := by
+theorem connack_tail_inv {w : World} {b : Nat} (h : Inv w b) (c c2 : Prop) [Decidable c] [Decidable c2]
+    (ph : Phase) :
+    Inv { (if c2 then (if c then pushTask w .resubscribe else w)
+           else pushTask (if c then pushTask w .resubscribe else w) .retry) with
+          initialized := true, phase := ph } b := by
   have h4 : Inv (if c then pushTask w .resubscribe else w) b := by
     split
     · exact h.pushQuiet _ rfl
     · exact h
-  exact h4.pushQuiet .retry rfl
+  have h5 : Inv (if c2 then (if c then pushTask w .resubscribe else w)
+      else pushTask (if c then pushTask w .resubscribe else w) .retry) b := by
+    split
+    · exact h4
+    · exact h4.pushQuiet .retry rfl
+  exact h5
 
 /-- the bound after an event: a submitted message raises it -/
 def nextBound (b : Nat) : Ev → Nat
@@ -918,7 +930,9 @@ theorem step_inv {w : World} {b : Nat} (e : Ev) (h : Inv w b)
     simp only [step, nextBound]
     split
     · exact h
-    · exact h.of_fields rfl rfl rfl rfl
+    · split
+      · exact h.of_fields rfl rfl rfl rfl
+      · exact h.of_fields rfl rfl rfl rfl
   | connackOk sp inbound =>
     simp only [step, nextBound]
     split
@@ -1890,16 +1904,32 @@ theorem foldl_deliverInbound_B (k : Nat) : ∀ (l : List (Nat × Nat)) {w : Worl
 theorem connectFailed_B {w : World} (h : BInv w w.retryQ) (k : Nat) :
     BInv (connectFailed w k) (connectFailed w k).retryQ := by
   unfold connectFailed
-  exact BInv.kill (w := { w with connReady := true }) h k
+  have h1 := BInv.kill (w := { w with connReady := true }) h k
+  simp only
+  split
+  · exact h1
+  · exact h1
 
-theorem connack_tail_B {w : World} (h : BInv w w.retryQ) (c : Prop) [Decidable c] (ph : Phase) :
-    BInv { pushTask (if c then pushTask w .resubscribe else w) .retry with initialized := true, phase := ph }
-      ({ pushTask (if c then pushTask w .resubscribe else w) .retry with initialized := true, phase := ph } : World).retryQ := by
+theorem connack_tail_B {w : World} (h : BInv w w.retryQ) (c c2 : Prop) [Decidable c] [Decidable c2]
+    (ph : Phase) :
+    BInv { (if c2 then (if c then pushTask w .resubscribe else w)
+            else pushTask (if c then pushTask w .resubscribe else w) .retry) with
+           initialized := true, phase := ph }
+      ({ (if c2 then (if c then pushTask w .resubscribe else w)
+          else pushTask (if c then pushTask w .resubscribe else w) .retry) with
+         initialized := true, phase := ph } : World).retryQ := by
   have h4 : BInv (if c then pushTask w .resubscribe else w) (if c then pushTask w .resubscribe else w).retryQ := by
     split
     · exact h.pushTask _ trivial
     · exact h
-  exact h4.pushTask .retry trivial
+  have h5 : BInv (if c2 then (if c then pushTask w .resubscribe else w)
+      else pushTask (if c then pushTask w .resubscribe else w) .retry)
+      (if c2 then (if c then pushTask w .resubscribe else w)
+        else pushTask (if c then pushTask w .resubscribe else w) .retry).retryQ := by
+    split
+    · exact h4
+    · exact h4.pushTask .retry trivial
+  exact h5
 
 theorem step_inv3 {w : World} {b : Nat} (e : Ev) (h : Inv3 w b)
     (hb : ∀ m q, e = .app (.pub m q) → b ≤ m) (hv : ∀ m q, e = .app (.pub m q) → q ≤ 2) :
@@ -1947,7 +1977,9 @@ theorem step_inv3 {w : World} {b : Nat} (e : Ev) (h : Inv3 w b)
     simp only [step]
     split
     · exact hB
-    · exact hB
+    · split
+      · exact hB
+      · exact hB
   | connackOk sp inbound =>
     simp only [step]
     split
